@@ -318,6 +318,10 @@ class _CppSwapTranslator(TranslatorBase):
             def get_missing(part_number):
                 part = parts[part_number]
                 names = [mem.name for mem in part]
+                for mem in part:
+                    if mem.bound and mem.bound not in all_names:
+                        raise GenerateError("{}.{} is sized by '{}', which is not a member of the struct".format(
+                            struct.name, mem.name, mem.bound))
                 return [(all_names[mem.bound], mem.bound)
                         for mem in part
                         if mem.bound and mem.bound not in names]
